@@ -169,6 +169,29 @@ TypeOK == /\ j \in -1..(MaxLen - 1) /\ k \in 0..MaxLen /\ fc1 \in 1..MaxLen
           /\ pc \in {"read", "cmp", "flush", "done"}
 
 \* behaviour export: the expected table for every input, printed from terminal states
+---------------------------------------------------------------------------
+(* Memory layouts.  The machine reads the caller's sequence only as          *)
+(* inp[k + 1] and never writes it (its work arrays pts / cidx are its own).  *)
+(* A caller's array need not be contiguous: it may be every second cell of   *)
+(* a longer buffer, a column of a row-major table, or a reversed view.       *)
+(* Buffer is the memory image, ViewOf what indexing through (offset, stride) *)
+(* reads; the other cells hold Filler, a value no input contains.            *)
+Layouts(n) == { [name |-> "contiguous", off |-> 0, stride |-> 1, len |-> n],
+                [name |-> "every2nd", off |-> 0, stride |-> 2, len |-> 2 * n - 1],
+                [name |-> "column", off |-> 1, stride |-> 3, len |-> 3 * n],
+                [name |-> "reversed", off |-> n - 1, stride |-> 0 - 1, len |-> n] }
+Filler == MaxVal + 7
+Cell(lay, i) == lay.off + (i - 1) * lay.stride
+Buffer(s, lay) == [a \in 0..(lay.len - 1) |->
+                     IF \E i \in 1..Len(s) : a = Cell(lay, i) THEN s[CHOOSE i \in 1..Len(s) : a = Cell(lay, i)] ELSE Filler]
+ViewOf(buf, lay, n) == [i \in 1..n |-> buf[Cell(lay, i)]]
+LayoutLaw == \A lay \in Layouts(L) :
+   /\ \A i \in 1..L : Cell(lay, i) \in 0..(lay.len - 1)
+   /\ ViewOf(Buffer(inp, lay), lay, L) = inp
+   /\ (lay.name # "contiguous" /\ lay.name # "reversed" => \E a \in 0..(lay.len - 1) : Buffer(inp, lay)[a] = Filler)
+InputNeverWritten == [][inp' = inp]_vars
+ExportLayouts == (Export /\ pc = "read" /\ k = 0 /\ \A i \in 1..L : inp[i] = 0) => PrintT(<<"LAYOUT", L, Layouts(L), Filler>>)
+
 ExportOK == (Export /\ pc = "done") => PrintT(<<"RF", inp, out>>)
 
 =============================================================================
